@@ -40,6 +40,14 @@ func probe(a arg) (string, string) {
 		f    size.Format
 		want string
 	}{{0, plain}, {size.FormatPretty, pretty}, {size.FormatPretty | size.FormatHTML, html}, {size.FormatHTML, plain}} {
+		// the rendering "contains nothing else" and is only appended: a buffer that already holds text (ending in a digit,
+		// a separator or a unit letter) must come back as that text followed by exactly the rendering
+		for _, pre := range []string{"sda1", "disk 10", "9", "1 ", "x=", "5 KiB", "&nbsp;", "1\u00a0", "B"} {
+			pb, err := size.DefaultFormatter(append(make([]byte, 0, len(pre)+40), pre...), s, c.f)
+			if err != nil || string(pb) != pre+c.want {
+				return "formatter_after_existing_text", fmt.Sprintf("DefaultFormatter(%q, %d, format=%d) = %q, %v; want %q", pre, a.S, c.f, pb, err, pre+c.want)
+			}
+		}
 		b, err := size.DefaultFormatter(nil, s, c.f)
 		if err != nil || string(b) != c.want {
 			return "formatter", fmt.Sprintf("DefaultFormatter(%d, format=%d) = %q, %v; want %q", a.S, c.f, b, err, c.want)
